@@ -5,7 +5,9 @@ from odata_query import ast, typing, exceptions as ex
 
 PROP_MODS = ["ODataVerif.Tie.ReturnTypes", "ODataVerif.Props.C18"]
 TYPES = ["bool", "int", "float", "str", "date", "datetime", "time", "coll"]
-ALLOWED_SETS = [("String",), ("String", "List"), ("Integer", "Float"), ("Boolean",), ("Date", "DateTime"), ("List",)]
+ALLOWED_SETS = [("String",), ("String", "List"), ("Integer", "Float"), ("Boolean",), ("Date", "DateTime"), ("List",),
+                # every single kind on its own (a single class is passed as such, not as a tuple) and a few more pairs
+                ("DateTime",), ("Date",), ("Time",), ("Integer",), ("Float",), ("GUID",), ("Time", "DateTime"), ("Date", "Time"), ("String", "GUID")]
 
 def real_infer(node):
     try:
